@@ -72,7 +72,6 @@ func c08Matrix() []c08Case {
 }
 
 func runC08(sum *hutil.Summary, tmp string, reps int, seed uint64) {
-	_ = seed
 	if _, err := os.ReadFile("/etc/machine-id"); err != nil {
 		sum.FailKey("harness", "harness:machine-id", "the daemon needs a readable /etc/machine-id: "+err.Error(), nil)
 		return
@@ -104,6 +103,18 @@ func runC08(sum *hutil.Summary, tmp string, reps int, seed uint64) {
 			}
 		}
 	}
+	// the optional workers switched on (c08_http.go): one scenario at a time (the HTTP port is fixed in the source),
+	// alongside the scenarios above; the full product of causes and client states in the first round of a longer run
+	var httpCases []c08Case
+	for rep := 0; rep < reps; rep++ {
+		httpCases = append(httpCases, c08HTTPMatrix(seed, rep, reps >= 3 && rep == 0)...)
+	}
+	var httpResults []result
+	httpDone := make(chan struct{})
+	go func() {
+		defer close(httpDone)
+		httpResults = runC08HTTPJobs(sum, bin, tmp, httpCases, reps)
+	}()
 	results := make([]result, len(jobs))
 	ran := make([]bool, len(jobs))
 	var wg sync.WaitGroup
@@ -137,10 +148,18 @@ func runC08(sum *hutil.Summary, tmp string, reps int, seed uint64) {
 		}(j)
 	}
 	wg.Wait()
+	<-httpDone
 	for i, r := range results {
 		if ran[i] {
 			record(sum, r)
 		}
+	}
+	for _, r := range httpResults {
+		record(sum, r)
+		fl, st := splitHTTPVariant(r.Variant)
+		sum.Dist("optional_workers_flags_" + fl)
+		sum.Dist("optional_workers_http_clients_" + st)
+		sum.Dist("optional_workers_cause_" + r.Scenario)
 	}
 }
 
@@ -152,6 +171,9 @@ func sshdLine(i int) string {
 func runC08Scenario(bin, dir, cause, variant string, rep int) (r result) {
 	if isHandoffVariant(variant) {
 		return runC08Handoff(bin, dir, cause, variant, rep)
+	}
+	if isHTTPVariant(variant) {
+		return runC08HTTP(bin, dir, cause, variant, rep)
 	}
 	r = result{Prop: "C08", Scenario: cause, Variant: variant, Rep: rep}
 	if err := os.MkdirAll(dir, 0o755); err != nil {
